@@ -15,7 +15,7 @@ from .stubs import NumState, real_state, LinEnv, Obj
 RULE = ("per IBM module: heterogeneous sets of 2..8 particles, a random permutation, a random sub-selection and the "
         "empty set; draws constant per kind within a paired run; histories of 3..6 updates with moves, removals, "
         "additions and re-orderings for chemicals/mine (remembered positions, fresh-array state) and sedimentation "
-        "(bottom-stress cache). Non-trivial: set with >=2 distinct particles.")
+        "(bottom-stress cache); saithe directed swimming (eggs / non-directed / directed larvae staying, leaving the grid, meeting land). Non-trivial: set with >=2 distinct particles.")
 ASSUMPTIONS = ["'identical random draws' is realised by serving one constant per draw kind to all particles of the "
                "paired runs", "environment values are attached to the particle (function of its position or identity)"]
 
@@ -231,9 +231,57 @@ def memory_model(ctx, drv):
         ctx.eq("memory.stuck", moved, t[0] == "1", cs)
 
 
+# ------------------------------------------------------------------ saithe: directed horizontal swimming
+def saithe_spread(ctx):
+    """heterogeneous saithe sets (eggs, non-directed larvae, directed larvae that stay, that would leave the grid, that
+    would swim onto land, new particles without a direction): each particle's fate (position, alive, direction) is
+    the same in the full set, in a permuted set and in a sub-selection"""
+    M = ibmrun.mod("saithe")
+    site = "ladim_plugins/saithe/ibm.py::spread"
+    for _ in range(ctx.n(30, 400)):
+        r = ctx.rng.randrange(5, 9); cc = ctx.rng.randrange(5, 9)
+        sea = np.array([[1 if ctx.rng.random() < 0.8 else 0 for _a in range(cc)] for _b in range(r)])
+        dt = ctx.rng.choice([3600.0, 86400.0, 43200.0])
+        env = LinEnv(h0=100.0, dx=800.0, xmin=0.0, xmax=cc - 1.0, ymin=0.0, ymax=r - 1.0)
+        n = ctx.rng.randrange(2, 9)
+        X = np.array([ctx.rng.choice([0.2, cc - 1.2, ctx.rng.uniform(0, cc - 1)]) for _a in range(n)])
+        Y = np.array([ctx.rng.choice([0.2, r - 1.2, ctx.rng.uniform(0, r - 1)]) for _a in range(n)])
+        age = np.array([ctx.rng.choice([10.0, 70.0, 100.0, 150.0]) for _a in range(n)])
+        direction = np.array([ctx.rng.choice([float("nan"), 0.0, 0.3, 1.6, 3.1, 4.7, 6.0]) for _a in range(n)])
+        inj = const_inj(ctx.rng)
+        seed = ctx.sub_seed()
+
+        def go(idx):
+            ibm = M.IBM(dict(dt=dt, ibm=dict(extra_spreading=True)))
+            g = env.grid()
+            g.atsea = lambda x, y: sea[np.clip(np.round(y).astype(int), 0, r - 1), np.clip(np.round(x).astype(int), 0, cc - 1)] > 0
+            m = len(idx)
+            st = real_state(dt=dt, timestamp=np.datetime64("2020-06-01T12:00:00"), X=X[idx].copy(), Y=Y[idx].copy(), Z=np.full(m, 40.0),
+                            age=age[idx].copy(), weight=np.full(m, 1.0), egg_buoy=np.full(m, 33.0), temp=np.zeros(m), salt=np.zeros(m),
+                            direction=direction[idx].copy())
+            with RngRecorder(seed, inj):
+                ibm.update_ibm(g, st, env.forcing())
+            return dict(X=np.array(st.X), Y=np.array(st.Y), alive=np.array(st.alive), direction=np.array(st["direction"]))
+
+        full = go(np.arange(n))
+        cs = dict(mask=sea.tolist(), dt=dt, X=X, Y=Y, age=age, direction=direction)
+        ctx.case(key=("saithe_spread", _, n), nontrivial=True); ctx.branch("saithe.spread"); ctx.size("saithe_spread", n)
+        ctx.branch("saithe.spread.someone_dies", int((~full["alive"]).any()))
+        perm = list(range(n)); ctx.rng.shuffle(perm); perm = np.array(perm)
+        rp = go(perm)
+        sel = np.array(sorted(ctx.rng.sample(range(n), ctx.rng.randrange(1, n))))
+        rs = go(sel)
+        for k, v in full.items():
+            ctx.oracle(arrays_equal(v[perm], rp[k]), "C10.saithe.spread.permutation", site,
+                       "%s differs after permuting the particle arrays with %r: %r vs %r" % (k, perm.tolist(), v[perm].tolist(), rp[k].tolist()), dict(cs, key=k))
+            ctx.oracle(arrays_equal(v[sel], rs[k]), "C10.saithe.spread.subselection", site,
+                       "%s of particles %r differs when the others are absent: %r vs %r" % (k, sel.tolist(), v[sel].tolist(), rs[k].tolist()), dict(cs, key=k))
+
+
 def run(ctx):
     for name in ibmrun.MODULES:
         metamorphic(ctx, name)
+    saithe_spread(ctx)
     for m in ("chemicals", "mine"):
         histories(ctx, m)
     if not getattr(ctx, "widened", False):
